@@ -596,7 +596,24 @@ def solve(hyps, goal, timeout_ms=20000, dyadic_syms=None, seed=0):
         return "proved", None, time.time() - t0, ""
     if r == z3.sat:
         return "refuted", s.model(), time.time() - t0, ""
-    return "unknown", None, time.time() - t0, s.reason_unknown()
+    reason = s.reason_unknown()
+    # undecided as a whole: a conjunction is proved when each conjunct is (smaller nonlinear queries are far more stable)
+    parts = _goal_conjuncts(goal)
+    if len(parts) > 1:
+        for cj in parts:
+            s2 = z3.Solver()
+            s2.set("timeout", timeout_ms)
+            s2.set("random_seed", seed)
+            for h in hyps:
+                s2.add(h)
+            s2.add(z3.Not(cj))
+            r2 = s2.check()
+            if r2 == z3.sat:
+                return "refuted", s2.model(), time.time() - t0, ""
+            if r2 != z3.unsat:
+                return "unknown", None, time.time() - t0, s2.reason_unknown()
+        return "proved", None, time.time() - t0, "conjunct-wise"
+    return "unknown", None, time.time() - t0, reason
 
 
 def dyadic_model(hyps, goal, symbols, timeout_ms=10000):
